@@ -81,10 +81,12 @@ func main() {
 	run.ShardSize = 120
 	run.Rule = "certificates: well-formed certificates of the five classes with 0-2 of 27 mutations " +
 		"(usages, constraints, key ids, ISD-AS attributes), real x509 DER built per case, ValidateCert type compared; " +
-		"payloads: valid base/update TRCs over 3-8 certificates with 0, 1 or 2 of 30 mutations (23 aimed at one " +
+		"payloads: valid base/update TRCs over 3-8 certificates with 0, 1 or 2 of 32 mutations (25 aimed at one " +
 		"rule of TRC.Validate each, 7 at the accepting side of a boundary), plus 30 valid payloads on the boundaries of the " +
 		"documented ranges (ISD 1/2/65534/65535, base/serial 1, 2^31, 2^63-1, quorum 1/max, grace 0/large, validity 1 s / " +
 		"epoch..9999, AS 1/2^32-1/2^32/2^48-1, extreme vote indices, 1024-char description); verdict and sentinel error class compared; " +
+		"decoder direction: valid payloads re-marshalled through a mirror of the ASN.1 structure with one of 24 single-field " +
+		"edits (18 violating one rule each, 6 harmless), DecodeTRC verdict and error class compared, accepted input must re-encode to itself; " +
 		"every accepted payload is encoded, decoded and compared field by field on the Go side (a failure is a violation); " +
 		"non-trivial = every payload case, and certificate cases that classify or were mutated"
 	rng := vgen.NewRand(run.Seed)
@@ -211,6 +213,9 @@ func main() {
 		}
 		run.Tally("roundtrip:ok")
 	}
+	// 3. decoder direction
+	decodeStream(run, rng, f)
+
 	// quorum at its upper boundary needs 255 sensitive and 255 regular voters: 511 certificates.
 	// Quick tier: implementation only (accepted, round trip; 256 rejected as invalid quorum size);
 	// thorough tier: also as model cases.
